@@ -543,6 +543,7 @@ func c20OneOnOne(c fw.Case) fw.Verdict {
 	apiB := &fakeAPI{ps: &hubAPI{h: h, id: idB}, id: idB}
 	if concurrentConnect {
 		apiA.ps.(*hubAPI).delay = 20 * time.Millisecond
+		apiB.ps.(*hubAPI).delay = 45 * time.Millisecond // the remote end joins the channel later than the local one
 	}
 	ctx, cancel := context.WithCancel(bg)
 	defer cancel()
@@ -565,13 +566,26 @@ func c20OneOnOne(c fw.Case) fw.Verdict {
 		nconn = 3 // several stores shared with one peer connect at the same time
 	}
 	errs := make(chan error, 8)
+	early := make(chan []byte, 8)
 	for i := 0; i < nconn; i++ {
 		wg.Add(2)
-		go func() { defer wg.Done(); errs <- chA.Connect(ctxA, idB) }()
+		go func(i int) {
+			defer wg.Done()
+			err := chA.Connect(ctxA, idB)
+			if err == nil && concurrentConnect {
+				// what a store does with its channel: it sends its heads as soon as Connect has returned
+				p := uniquePayload(mrand.New(mrand.NewSource(c.Seed+int64(i))), "A-early", 1000+i, 64)
+				if chA.Send(ctx, idB, p) == nil {
+					early <- p
+				}
+			}
+			errs <- err
+		}(i)
 		go func() { defer wg.Done(); errs <- chB.Connect(ctx, idA) }()
 	}
 	wg.Wait()
 	close(errs)
+	close(early)
 	for err := range errs {
 		if err != nil {
 			return fw.Verdict{Status: fw.Inconclusive, What: "connect: " + err.Error()}
@@ -589,6 +603,10 @@ func c20OneOnOne(c fw.Case) fw.Verdict {
 		}
 	}
 	var sentA, sentB [][]byte
+	for p := range early {
+		sentA = append(sentA, p)
+	}
+	v.Count("oneonone_payloads_sent_right_after_connect", int64(len(sentA)))
 	exchange := func(round int) *fw.Verdict {
 		n := 10 + rng.Intn(40)
 		for i := 0; i < n; i++ {
